@@ -390,6 +390,12 @@ def rules_planner_counts(A: Analysis, rep, F: Optional[PlannerFacts] = None):
                 if isinstance(anc, ast.For) and isinstance(anc.target, ast.Name) and anc.target.id == arg and \
                         norm(anc.iter).replace("reversed(", "").rstrip(")").endswith(".task.deps"):
                     ok = True
+                # … or the variable of a comprehension over <something>.deps
+                if isinstance(anc, (ast.ListComp, ast.GeneratorExp, ast.SetComp, ast.DictComp)):
+                    for gen_ in anc.generators:
+                        if isinstance(gen_.target, ast.Name) and gen_.target.id == arg and \
+                                norm(gen_.iter).replace("reversed(", "").rstrip(")").endswith(".task.deps"):
+                            ok = True
         if not ok:
             bad.append(c)
     rep.check(not bad, "PL8", "task provenance", fi.node, "tasks come only from the requested id or a visited task's deps",
